@@ -47,7 +47,9 @@ class Call:
                 'kwargs': {k: short(v) for k, v in self.kwargs.items()}}
 
 
-def short(v, lim=160):
+def short(v, lim=160, depth=0):
+    if depth > 4:
+        return '<nested deeper>'
     try:
         if hasattr(v, 'base_str') and hasattr(v, 'ansi_settings_at'):
             try:
@@ -56,7 +58,7 @@ def short(v, lim=160):
                 rows = 'ERR %r' % (e,)
             return {'type': type(v).__name__, 'text': v.base_str, 'settings': rows}
         if isinstance(v, (list, tuple)):
-            return [short(x) for x in v[:12]]
+            return [short(x, lim, depth + 1) for x in v[:12]]
         if isinstance(v, (str, int, float, bool)) or v is None:
             return v if not isinstance(v, str) or len(v) <= lim else v[:lim] + '...'
         if isinstance(v, slice):
